@@ -138,17 +138,19 @@ fn gen_cases(tier: Tier, core: Core) -> Vec<Case> {
                         ops[p] = Opnd::Reg(r);
                         push(&mut out, ops, "register", p);
                     }
-                    // the same register through a .def alias
-                    let mut ops = base.ops.clone();
-                    ops[p] = Opnd::Reg(16);
-                    let ic = ICase::new(base.mnem, ops);
-                    let mut parts: Vec<String> = vec![];
-                    for (i, oo) in ic.ops.iter().enumerate() {
-                        parts.push(if i == p { ALIAS.to_string() } else { oo.text() });
+                    // every register through a .def alias as well (alias_q<N> = rN)
+                    for r in 0..32 {
+                        let mut ops = base.ops.clone();
+                        ops[p] = Opnd::Reg(r);
+                        let ic = ICase::new(base.mnem, ops);
+                        let mut parts: Vec<String> = vec![];
+                        for (i, oo) in ic.ops.iter().enumerate() {
+                            parts.push(if i == p { format!("{}{}", ALIAS, r) } else { oo.text() });
+                        }
+                        // relative instructions have no register operands, so plain join is right
+                        let text = format!("{} {}", ic.mnem, parts.join(", "));
+                        out.push(Case { ic, text, cat: "register-alias", pos: p, uses_alias: true });
                     }
-                    // relative instructions have no register operands, so plain join is right
-                    let text = format!("{} {}", ic.mnem, parts.join(", "));
-                    out.push(Case { ic, text, cat: "register-alias", pos: p, uses_alias: true });
                 }
                 // 2. numeric fields: window beyond both ends + extremes
                 let numeric = matches!(o, Opnd::Imm(_) | Opnd::Disp(_, _));
@@ -165,7 +167,17 @@ fn gen_cases(tier: Tier, core: Core) -> Vec<Case> {
                     } else {
                         80
                     };
-                    for k in window(lo, hi, w) {
+                    let mut values = window(lo, hi, w);
+                    // values congruent to a legal one modulo 2^8 / 2^16 / 2^32 (a narrowing cast
+                    // before the range check would fold them into the field)
+                    for m in [8u32, 16, 32] {
+                        for base_v in [lo, hi, (lo + hi) / 2] {
+                            values.insert(base_v + (1i64 << m));
+                            values.insert(base_v - (1i64 << m));
+                            values.insert(base_v + 3 * (1i64 << m));
+                        }
+                    }
+                    for k in values {
                         let mut ops = base.ops.clone();
                         ops[p] = match o {
                             Opnd::Disp(b, _) => Opnd::Disp(*b, k),
@@ -251,7 +263,11 @@ fn check_case(cx: &Ctx, devname: &str, core: Core, strict_ok: bool, c: &Case) {
         prefix.push_str(&format!(".device {}\n", devname));
     }
     if c.uses_alias {
-        prefix.push_str(&format!(".def {} = r16\n", ALIAS));
+        // which alias does the text use? alias_q<N> = rN
+        if let Some(i) = c.text.find(ALIAS) {
+            let n: String = c.text[i + ALIAS.len()..].chars().take_while(|ch| ch.is_ascii_digit()).collect();
+            prefix.push_str(&format!(".def {}{} = r{}\n", ALIAS, n, n));
+        }
     }
     let src = format!("{}{}\n", prefix, c.text);
     let o = sut::build_str(&src);
